@@ -15,7 +15,7 @@ def sleep(
 ) -> None:
     """Block for ``duration`` milliseconds using ``sleep_func``."""
 
-    if duration < 0:
+    if not 0 <= duration < float("inf"):
         raise ValueError("duration must be non-negative")
 
     milliseconds = float(duration)
